@@ -20,7 +20,8 @@ import sys
 
 from vlib.core import MachineryError
 
-FAMILIES = ["mj_basic", "mj_restricted", "mj_qerr", "ml", "sj_shape", "sj_trust", "inv", "inv_same", "inv3", "sj_keys", "inv_keys"]
+FAMILIES = ["mj_basic", "mj_restricted", "mj_qerr", "ml", "sj_shape", "sj_trust", "inv", "inv_same", "inv3", "sj_keys", "inv_keys",
+            "mjv", "mlv", "sjv", "invv", "sj_pseudo", "sj_env", "inv_env"]
 
 
 def _runs(path):
@@ -166,10 +167,9 @@ def run(ctx):
     total = 0
 
     def e2e(records, tag, step):
-        ctx.replay_and_compare("c15e2e", records, pkg="c15")
-        # ... recorded and validated (code -> spec)
+        # replayed and compared step by step; every step-th run is also recorded and validated (code -> spec)
         t1 = os.path.join(ctx.scratch, "c15_%s_trace.ndjson" % tag)
-        ctx.harness("c15e2e", records[::step], args=["-out", t1], pkg="c15")
+        ctx.replay_and_compare("c15e2e", records, args=["-out", t1, "-mode", step], pkg="c15")
         _validate(ctx, t1, tag)
 
     if quick:
